@@ -290,7 +290,8 @@ RbEnd(r, p, g) ==
 RbEndChecks(r, p, g, size, calc) ==
   << <<rb[r].on /\ rb[r].restored /\ rb[r].lp = p, "C05", "rollback end without restore">>,
      <<g = GhostAt(p, Len(hist[p])), "C05", "state after rollback differs from the state after the last valid event">>,
-     <<size = calc, "C11", "checkpoint size accounting differs from the allocator contents after restore">> >>
+     <<size = calc, "C11", "checkpoint size accounting differs from the allocator contents after restore">>,
+     <<size = calc, "C05", "checkpoint size accounting differs from the allocator contents after restore (checkpoints will be cut short or overflow)">> >>
 
 (* forward execution of m by LP p (process.c:388-396); g is the ghost state after the handler *)
 Exec(r, p, m, g, pred) ==
@@ -310,7 +311,8 @@ ExecChecks(r, p, m, size, calc) ==
      <<Live(m) => ~\E am \in early[p] : Live(am) /\ SameRemote(m, am), "C02", "an event cancelled by an early remote anti-message was delivered">>,
      <<Live(m) => ~\E am \in early[p] : Live(am) /\ Cancels(am, m), "C06", "an event was delivered although the anti-message sent to cancel it is parked at the LP">>,
      <<Live(m) => ~\E am \in early[p] : Live(am) /\ Cancels(am, m), "C02", "an event was delivered although the anti-message sent to cancel it is parked at the LP">>,
-     <<size = calc, "C11", "checkpoint size accounting differs from the allocator contents">> >>
+     <<size = calc, "C11", "checkpoint size accounting differs from the allocator contents">>,
+     <<size = calc, "C05", "checkpoint size accounting differs from the allocator contents (the next checkpoint will be cut short or overflow: a later rollback restores wrong bytes)">> >>
 
 (* checkpoint_take (process.c:78) *)
 Ckpt(r, p, ref, size) ==
@@ -357,7 +359,13 @@ Free(r, m) ==
 FreeChecks(r, m) ==
   << <<Live(m), "C06", "message buffer released twice">>,
      <<Live(m) => ~Reachable(r, m), "C06", "message buffer released while still reachable">>,
-     <<(Live(m) /\ msg[m].inq = "atgvt" /\ ~finiQ[r]) => msg[m].t < gvtSeen[r], "C04", "buffer of a remotely cancelled message released before the GVT passed it">> >>
+     <<(Live(m) /\ msg[m].inq = "atgvt" /\ ~finiQ[r]) => msg[m].t < gvtSeen[r], "C04", "buffer of a remotely cancelled message released before the GVT passed it">>,
+     \* an anti-message that came from the network is consumed together with the event it cancels (rollback or early match): when it is
+     \* released, that event must not be alive at this rank any more (processed, queued or in hand)
+     <<(Live(m) /\ msg[m].pnm # 0 /\ ~finiQ[r]) => ~\E x \in DOMAIN msg : x # m /\ Cancels(m, x) /\ (InHistE(x) \/ msg[x].inq \in {"inbox", "heap"} \/ \E q \in Threads : hand[q] = x),
+       "C06", "a remote anti-message was released without annihilating the event it was sent to cancel (the event stays delivered)">>,
+     <<(Live(m) /\ msg[m].pnm # 0 /\ ~finiQ[r]) => ~\E x \in DOMAIN msg : x # m /\ Cancels(m, x) /\ (InHistE(x) \/ msg[x].inq \in {"inbox", "heap"} \/ \E q \in Threads : hand[q] = x),
+       "C02", "a remote anti-message was released without annihilating the event it was sent to cancel (the event stays delivered)">> >>
 
 \* the predicate of LP p held on a state that is committed with respect to GVT g
 HeldCommitted(p, g) ==
@@ -409,7 +417,9 @@ Vote(r, g) ==
                  exited, hand, maxDecl, announced, net, rx, lastNm, early>>
 VoteChecks(r, g, termTime) ==
   << <<g >= termTime \/ \A p \in LpSet : owner[p] = r => HeldCommitted(p, g),
-       "C07", "thread voted to terminate although an LP's predicate has not held on a committed state">> >>
+       "C07", "thread voted to terminate although an LP's predicate has not held on a committed state">>,
+     <<g >= termTime \/ \A p \in LpSet : owner[p] = r => HeldCommitted(p, g),
+       "C01", "thread voted to terminate although an LP's predicate has not held on a committed state (the run can end before the sequential result is reached)">> >>
 
 (* termination_on_ctrl_msg: the end of the run has been announced to this node *)
 TermCtrl ==
